@@ -45,10 +45,12 @@ func TestVerifC20(t *testing.T) {
 		}
 		return "other"
 	}
+	// one server for all cases: only the workspace root and the directory->version map matter here
+	ls := NewLanguageServer(context.Background(), &LanguageServerOptions{})
 	for i := range cases {
 		c := &cases[i]
-		ls := NewLanguageServer(context.Background(), &LanguageServerOptions{})
 		ls.workspaceRootURI = c.Root
+		ls.loadedConfigAllRegoVersions.Clear()
 		for _, e := range c.M {
 			v := ast.RegoV1
 			if e.V == "v0" {
